@@ -12,9 +12,11 @@ import (
 	"encoding/hex"
 	"encoding/json"
 	"fmt"
+	"hash/fnv"
 	"math/rand/v2"
 	"os"
 	"path/filepath"
+	"runtime"
 	"runtime/debug"
 	"sort"
 	"strings"
@@ -51,6 +53,20 @@ func (s Step) String() string {
 type History struct {
 	Doc   string `json:"doc"`
 	Steps []Step `json:"steps"`
+	// MapSalt: the runtime's random sequence (map seeds, map iteration offsets) is restarted from a
+	// value derived from it before every step, dry run and observation, so that a history replays
+	// with the same map walk orders, and histories with different salts explore different ones.
+	MapSalt uint64 `json:"map_salt,omitempty"`
+}
+
+func (h History) reseed(s *Step, phase string) {
+	f := fnv.New64a()
+	if s != nil {
+		f.Write([]byte(s.Op))
+		f.Write(s.Args)
+	}
+	f.Write([]byte(phase))
+	runtime.VerifSetMapRand(f.Sum64() ^ h.MapSalt)
 }
 
 // Model is a reference model of one property's store.
@@ -64,14 +80,14 @@ type Model interface {
 // Store binds a model to the real API.
 type Store interface {
 	ID() string
-	Docs() []string                            // starting documents (paths or generator names)
-	Materialise(doc, path string) error        // write the starting document to path
-	NewModel(path string) (Model, error)       // initial model, from the starting document
+	Docs() []string                               // starting documents (paths or generator names)
+	Materialise(doc, path string) error           // write the starting document to path
+	NewModel(path string) (Model, error)          // initial model, from the starting document
 	Gen(rng *rand.Rand, m Model, aux string) Step // next step given the current model state
-	Exec(s Step, path, aux string) error       // the real in-place API call
-	Observe(path string) (string, error)       // observation in the model's String() format
-	SetupAux(aux string) error                 // auxiliary input files (attachments)
-	Structural(path string, m Model) error     // extra invariants on the re-read file (C39), nil if none
+	Exec(s Step, path, aux string) error          // the real in-place API call
+	Observe(path string) (string, error)          // observation in the model's String() format
+	SetupAux(aux string) error                    // auxiliary input files (attachments)
+	Structural(path string, m Model) error        // extra invariants on the re-read file (C39), nil if none
 	// Valid says whether step s belongs to the generator's alphabet in model state m (shrinking must
 	// not turn a history into one the generator deliberately never produces).
 	Valid(m Model, s Step) bool
@@ -166,6 +182,7 @@ func Run(st Store, h History) (*Violation, Stats, error) {
 	if err := st.SetupAux(aux); err != nil {
 		return nil, stats, err
 	}
+	h.reseed(nil, "init")
 	model, err := st.NewModel(path)
 	if err != nil {
 		return nil, stats, fmt.Errorf("initial model of %s: %w", h.Doc, err)
@@ -193,6 +210,7 @@ func Run(st Store, h History) (*Violation, Stats, error) {
 		crashTaken := false
 		target := 0
 		if s.Fault != nil {
+			h.reseed(&s, "exec") // the dry run walks its maps exactly like the real one
 			n := countMutating(st, s, path, aux, dry)
 			if n > 0 {
 				target = 1 + (s.Fault.N-1)%n
@@ -240,6 +258,7 @@ func Run(st Store, h History) (*Violation, Stats, error) {
 		panicked := false
 		var panicVal any
 		var stack string
+		h.reseed(&s, "exec")
 		simfs.Activate(sim)
 		func() {
 			defer func() {
@@ -254,6 +273,7 @@ func Run(st Store, h History) (*Violation, Stats, error) {
 		}()
 		simfs.Deactivate()
 		stats.Events += len(sim.Events)
+		h.reseed(&s, "observe")
 		mk := func(class, detail string) *Violation {
 			mb := before.String()
 			if strings.Count(mb, "\n") > 3 {
@@ -371,7 +391,7 @@ func Shrink(st Store, h History, class string, budget int) History {
 	}
 	// cut after the violating step
 	if v, _, err := Run(st, h); err == nil && v != nil && v.Step < 0 {
-		return History{Doc: h.Doc}
+		return History{Doc: h.Doc, MapSalt: h.MapSalt}
 	} else if err == nil && v != nil && v.Step+1 < len(h.Steps) {
 		h.Steps = h.Steps[:v.Step+1]
 	}
@@ -379,7 +399,7 @@ func Shrink(st Store, h History, class string, budget int) History {
 	for changed := true; changed; {
 		changed = false
 		for i := len(h.Steps) - 2; i >= 0; i-- {
-			c := History{Doc: h.Doc, Steps: append(append([]Step{}, h.Steps[:i]...), h.Steps[i+1:]...)}
+			c := History{Doc: h.Doc, MapSalt: h.MapSalt, Steps: append(append([]Step{}, h.Steps[:i]...), h.Steps[i+1:]...)}
 			if fails(c) {
 				h = c
 				changed = true
@@ -389,7 +409,7 @@ func Shrink(st Store, h History, class string, budget int) History {
 	// drop faults
 	for i := range h.Steps {
 		if h.Steps[i].Fault != nil {
-			c := History{Doc: h.Doc, Steps: append([]Step{}, h.Steps...)}
+			c := History{Doc: h.Doc, MapSalt: h.MapSalt, Steps: append([]Step{}, h.Steps...)}
 			c.Steps[i].Fault = nil
 			if fails(c) {
 				h = c
